@@ -1,6 +1,7 @@
 package main
 
 import (
+	"sync"
 	"context"
 	"errors"
 	"fmt"
@@ -29,7 +30,7 @@ func classifyListenErr(err error, stopped bool) string {
 	}
 	s := err.Error()
 	switch {
-	case strings.Contains(s, "address already in use"):
+	case strings.Contains(s, "address already in use"), strings.Contains(s, "cannot assign requested address"):
 		return "bind"
 	case errors.Is(err, context.Canceled):
 		return "canceled"
@@ -48,6 +49,11 @@ func runListen(n int, udpFail, tcpFail string, stopMs int) string {
 			host = "[::1]"
 		}
 		port := freePort()
+		if udpFail[i] == '2' || tcpFail[i] == '2' {
+			// an address that is not assigned to any interface of this host: both binds fail with
+			// EADDRNOTAVAIL (a mistyped listen address, an interface that is gone)
+			host = notAvailHost(i == 3)
+		}
 		addrs[i] = host + ":" + strconv.Itoa(port)
 		if udpFail[i] == '1' {
 			if c, err := net.ListenPacket("udp", addrs[i]); err == nil {
@@ -84,7 +90,10 @@ func runListen(n int, udpFail, tcpFail string, stopMs int) string {
 		h.Close()
 	}
 	rebind := "ok"
-	for _, a := range addrs {
+	for i, a := range addrs {
+		if udpFail[i] == '2' || tcpFail[i] == '2' {
+			continue // cannot be bound by anybody
+		}
 		if c, err := net.ListenPacket("udp", a); err != nil {
 			rebind = "busy"
 		} else {
@@ -175,6 +184,49 @@ func runListenBurst(n, rounds int) string {
 	return fmt.Sprintf("returned=%d/%d err=%s rebind=%s", returned, rounds, cls, rebind)
 }
 
+var notAvailOnce sync.Once
+var notAvail4, notAvail6 string
+
+// notAvailHost: a documentation address that is really NOT assigned to this machine (binding it
+// fails with EADDRNOTAVAIL); "" when none is found. Probed, because sandboxes do use TEST-NET
+// addresses on their interfaces.
+func notAvailHost(v6 bool) string {
+	notAvailOnce.Do(func() {
+		probe := func(h string) bool {
+			c, err := net.Listen("tcp", h+":0")
+			if c != nil {
+				c.Close()
+			}
+			if err == nil || !strings.Contains(err.Error(), "cannot assign requested address") {
+				return false
+			}
+			u, err := net.ListenPacket("udp", h+":0")
+			if u != nil {
+				u.Close()
+			}
+			return err != nil && strings.Contains(err.Error(), "cannot assign requested address")
+		}
+		for _, h := range []string{"198.51.100.77", "203.0.113.77", "192.0.2.177", "100.64.99.77"} {
+			if probe(h) {
+				notAvail4 = h
+				break
+			}
+		}
+		for _, h := range []string{"[2001:db8::77]", "[2001:db8:ffff::77]"} {
+			if probe(h) {
+				notAvail6 = h
+				break
+			}
+		}
+	})
+	if v6 && notAvail6 != "" {
+		return notAvail6
+	}
+	return notAvail4
+}
+
+func notAvailWorks() bool { return notAvailHost(false) != "" }
+
 func init() {
 	areas["listen"] = func(c *Ctx) error {
 		r := NewRng(c.seed)
@@ -189,7 +241,7 @@ func init() {
 			if stop >= 0 {
 				c.Stat("kind:stop")
 			}
-			if strings.Contains(uf+tf, "1") {
+			if strings.ContainsAny(uf+tf, "12") {
 				c.Stat("kind:bindfail")
 			}
 		}
@@ -227,11 +279,18 @@ func init() {
 				uf += strconv.Itoa(r.Intn(2) * r.Intn(2))
 				tf += strconv.Itoa(r.Intn(2) * r.Intn(2))
 			}
+			if notAvailWorks() && r.Chance(15) {
+				// one address is not assigned to this host
+				j := r.Intn(n)
+				uf = uf[:j] + "2" + uf[j+1:]
+				tf = tf[:j] + "2" + tf[j+1:]
+				c.Stat("kind:addr-not-available")
+			}
 			stop := -1
 			if r.Chance(40) {
 				stop = r.Pick([]int{0, 0, 1, 2, 5, 20, 50})
 			}
-			if stop < 0 && !strings.Contains(uf+tf, "1") {
+			if stop < 0 && !strings.ContainsAny(uf+tf, "12") {
 				// nothing would ever end serving: make exactly one listener fail
 				if r.Bool() {
 					uf = "1" + uf[1:]
